@@ -28,7 +28,7 @@ import (
 
 const M = ringlab.M
 
-var scenarios = []string{"nil-pred-at-lock", "nil-pred-before", "pred-self", "dup-id", "adjacent-id", "succ-transferring", "succ-leaving", "leave-then-join-race", "stale-dead-pred", "succ-left-stale-route"}
+var scenarios = []string{"nil-pred-at-lock", "nil-pred-before", "pred-self", "dup-id", "adjacent-id", "succ-transferring", "succ-leaving", "leave-then-join-race", "stale-dead-pred", "succ-left-stale-route", "pred-ping-error"}
 
 type jcase struct {
 	Name     string `json:"name"`
@@ -62,6 +62,7 @@ func runCase(c jcase, rep *batch.Report) batch.CaseResult {
 	}
 	lab := ringlab.New(ringlab.Options{Mode: mode, Seed: c.Seed})
 	defer lab.Close()
+	lab.Faults = &ringlab.FaultPlan{}
 	rng := rand.New(rand.NewSource(c.Seed))
 	used := map[uint64]bool{}
 	newID := func() uint64 {
@@ -243,6 +244,27 @@ func runCase(c jcase, rep *batch.Report) batch.CaseResult {
 			}
 		}
 		go func() { time.Sleep(time.Duration(5+rng.Intn(20)) * time.Millisecond); lab.Unfreeze() }()
+	case "pred-ping-error":
+		if n < 2 || !c.NetV {
+			break
+		}
+		// the successor's predecessor is alive but the one ping RequestToJoin sends to it ends with a
+		// transport error (periodic tasks parked, so that ping is the next one): not a chord error
+		if !lab.FreezePeriodic(20 * time.Second) {
+			res.Inconclusive = "periodic tasks could not be parked within 20 s"
+			return res
+		}
+		if pid, ok := succ.Node.VerifPredecessorID(); ok && pid != succID {
+			f := &ringlab.Fault{Method: "Ping", Target: pid, Nth: 1, Mode: ringlab.FailBefore}
+			lab.Faults.Add(f)
+			windowHit.Store(true)
+			stateSeen = fmt.Sprintf("the next ping to %d (predecessor of %d) fails with a transport error", pid, succID)
+			via = succ
+			if rng.Intn(2) == 0 {
+				via = members[rng.Intn(len(members))]
+			}
+		}
+		go func() { time.Sleep(time.Duration(5+rng.Intn(20)) * time.Millisecond); lab.Unfreeze() }()
 	case "succ-left-stale-route":
 		if n < 3 {
 			break
@@ -407,7 +429,7 @@ func main() {
 	child.Register("cases", runCases)
 	child.Main()
 	r := ev.Start("C08", "exploration")
-	r.SetRule("a real Join is issued into a live ring of 1..6 real LocalNodes whose contacted successor is in a constructed state: predecessor cleared exactly when the request holds the membership lock (hook rtj.locked) or just before; predecessor == self (one-node ring); joiner id equal / adjacent (+-1,+-2) to a member id; successor held in Transferring by another join (blocked at a hook) or in Leaving by its own leave (blocked at a hook); predecessor of the successor leaving concurrently; predecessor of the successor gone with the pointer still naming it (periodic tasks parked), asked directly or through another member; successor gone for good while the contacted member still routes to it; direct and proxied wiring; distinct+non-trivial = (scenario, ring size, wiring, outcome class) for cases whose window was hit")
+	r.SetRule("a real Join is issued into a live ring of 1..6 real LocalNodes whose contacted successor is in a constructed state: predecessor cleared exactly when the request holds the membership lock (hook rtj.locked) or just before; predecessor == self (one-node ring); joiner id equal / adjacent (+-1,+-2) to a member id; successor held in Transferring by another join (blocked at a hook) or in Leaving by its own leave (blocked at a hook); predecessor of the successor leaving concurrently; predecessor of the successor gone with the pointer still naming it (periodic tasks parked), asked directly or through another member; successor gone for good while the contacted member still routes to it; predecessor of the successor alive but the one ping the join request sends to it ends with a transport error (proxied wiring); direct and proxied wiring; distinct+non-trivial = (scenario, ring size, wiring, outcome class) for cases whose window was hit")
 	r.Assume("an equal joiner id is answered with ErrDuplicateJoinerID (not a valid joiner); ErrNodeGone from a contacted node that has itself left meanwhile is not an internal error of a serving node")
 	rng := r.Rand("cases")
 	reps := r.Pick(4, 60)
